@@ -22,6 +22,12 @@ struct Inner {
     zero_space_reads: u64,
     tx_log: Vec<Vec<u8>>,
     record_tx: bool,
+    /// 0 = a write is taken whole; n > 0 = the transport takes at most n bytes per write call (a socket or tty whose
+    /// transmit buffer is nearly full); what was taken is reported as one `tx` event when the writer goes back to reading
+    max_write: usize,
+    pending_tx: Vec<u8>,
+    /// what the writer still has to offer of the buffer it is writing (write_all comes back with exactly this)
+    expect_rest: Option<Vec<u8>>,
 }
 
 pub struct ScriptIo {
@@ -95,6 +101,10 @@ impl IoHandle {
     pub fn zero_space_reads(&self) -> u64 {
         self.lock().zero_space_reads
     }
+    /// the transport takes at most `n` bytes per write call from now on (0 = everything)
+    pub fn set_max_write(&self, n: usize) {
+        self.lock().max_write = n;
+    }
     pub fn record_tx(&self, on: bool) {
         self.lock().record_tx = on;
     }
@@ -117,6 +127,16 @@ impl AsyncRead for ScriptIo {
         buf: &mut ReadBuf<'_>,
     ) -> Poll<io::Result<()>> {
         let mut g = self.inner.lock().unwrap_or_else(|e| e.into_inner());
+        if !g.pending_tx.is_empty() {
+            g.expect_rest = None;
+            let bytes = std::mem::take(&mut g.pending_tx);
+            if g.record_tx {
+                g.tx_log.push(bytes.clone());
+            }
+            drop(g);
+            self.sink.emit(json!({"e": self.tx_event, "bytes": bytes_json(&bytes)}));
+            g = self.inner.lock().unwrap_or_else(|e| e.into_inner());
+        }
         if let Some(front) = g.chunks.front_mut() {
             let n = std::cmp::min(front.len(), buf.remaining());
             if n == 0 {
@@ -156,6 +176,34 @@ impl AsyncWrite for ScriptIo {
         if let Some(kind) = g.werr {
             self.sink.bump();
             return Poll::Ready(Err(io::Error::from(kind)));
+        }
+        if g.max_write > 0 {
+            // a buffer that is not the rest of the one being written starts a new frame: what was taken of the
+            // previous one is all that will ever be sent of it
+            let continuation = g.expect_rest.as_deref() == Some(buf);
+            let mut out: Vec<Vec<u8>> = Vec::new();
+            if !continuation && !g.pending_tx.is_empty() {
+                out.push(std::mem::take(&mut g.pending_tx));
+            }
+            let n = std::cmp::min(g.max_write, buf.len());
+            g.pending_tx.extend_from_slice(&buf[..n]);
+            if n == buf.len() {
+                g.expect_rest = None;
+                out.push(std::mem::take(&mut g.pending_tx));
+            } else {
+                g.expect_rest = Some(buf[n..].to_vec());
+            }
+            if g.record_tx {
+                for o in &out {
+                    g.tx_log.push(o.clone());
+                }
+            }
+            drop(g);
+            self.sink.bump();
+            for o in out {
+                self.sink.emit(json!({"e": self.tx_event, "bytes": bytes_json(&o)}));
+            }
+            return Poll::Ready(Ok(n));
         }
         if g.record_tx {
             g.tx_log.push(buf.to_vec());
